@@ -194,8 +194,12 @@ func (s *Sink) Close() (retErr error) {
 	s.opened = false
 
 	if s.sinkW == nil && s.localWALDir == "" {
-		// Header was never fully received; clean up the temp directory.
-		return os.RemoveAll(s.snapTmpDirPath)
+		// Header was never fully received; clean up the temp directory. Nothing
+		// is installed, so the caller must not be told the snapshot succeeded.
+		if err := os.RemoveAll(s.snapTmpDirPath); err != nil {
+			return err
+		}
+		return ErrIncomplete
 	}
 
 	defer func() {
